@@ -42,6 +42,15 @@ func verifData(maxSamples int) []*stub.Series {
 	}
 }
 
+// verifData1: the same three series with exactly one symbolic sample each.
+func verifData1() []*stub.Series {
+	return []*stub.Series{
+		stub.NewSeries(stub.Labels("__name__", "foo", "a", "x", "b", "1"), stub.SymSeries("foox", 1, verifR)),
+		stub.NewSeries(stub.Labels("__name__", "foo", "a", "y", "b", "1"), stub.SymSeries("fooy", 1, verifR)),
+		stub.NewSeries(stub.Labels("__name__", "bar", "a", "x"), stub.SymSeries("barx", 1, verifR)),
+	}
+}
+
 func verifEngine(optimizers []logicalplan.Optimizer, lookbackMs int64) *compatibilityEngine {
 	o := Opts{DisableFallback: true, LogicalOptimizers: optimizers}
 	o.LookbackDelta = sym.DurMs(lookbackMs)
